@@ -149,6 +149,27 @@ struct Resolved {
     result: Option<usize>,
 }
 
+/// number of distinct internal nodes under `p`, counting stops at `limit` (cost control only)
+fn dag_size(p: Ptr, limit: usize) -> u64 {
+    let mut seen: BTreeSet<usize> = BTreeSet::new();
+    let mut stack = vec![p];
+    while let Some(q) = stack.pop() {
+        let n = match q {
+            BddPtr::Reg(n) | BddPtr::Compl(n) => n,
+            _ => continue,
+        };
+        if !seen.insert(n as *const BddNode as usize) {
+            continue;
+        }
+        if seen.len() >= limit {
+            break;
+        }
+        stack.push(n.low);
+        stack.push(n.high);
+    }
+    seen.len().max(1) as u64
+}
+
 fn apply<T: IteTable<'static, Ptr> + Default + 'static>(b: &'static RobddBuilder<'static, T>, r: &Resolved, pool: &[Ptr], nvars_now: usize, cube: &Cube) -> Ptr {
     let g = |i: usize| pool[r.x[i]];
     let l = VarLabel::new(r.label as u64);
@@ -307,6 +328,8 @@ fn run<T: IteTable<'static, Ptr> + Default + 'static>(plan: &Plan, ctx: &mut Ctx
     let mut pool: Vec<Ptr> = Vec::new();
     let mut twin_pool: Vec<Ptr> = Vec::new();
     let mut ms: Vec<M> = Vec::new();
+    // node count per handle (capped), used only to keep a single operation's cost bounded
+    let mut sz: Vec<u64> = Vec::new();
     let mut own: Vec<Vec<usize>> = vec![Vec::new(); 4];
     let mut history: Vec<Resolved> = Vec::new();
     let mut nvars_now = n0;
@@ -409,6 +432,20 @@ fn run<T: IteTable<'static, Ptr> + Default + 'static>(plan: &Plan, ctx: &mut Ctx
             }
             _ => continue,
         }
+        {
+            // cost control only: the work of one apply is bounded by the product of its operands' sizes
+            let nops = match kind {
+                K_NEG | K_COND | K_EXISTS | K_CONDMODEL => 1,
+                K_AND | K_OR | K_XOR | K_IFF | K_COMPOSE => 2,
+                K_ITE | K_ANDLST | K_ORLST => 3,
+                _ => 0,
+            };
+            let product = (0..nops).fold(1u64, |a, j| a.saturating_mul(sz[r.x[j]]));
+            if product > 1_500_000 {
+                ctx.count("operands-too-big-operation-skipped", 1);
+                continue;
+            }
+        }
         if kind == K_EQ {
             ctx.cur_prop = "C02";
             let (pa, pb) = (pool[r.x[0]], pool[r.x[1]]);
@@ -442,6 +479,7 @@ fn run<T: IteTable<'static, Ptr> + Default + 'static>(plan: &Plan, ctx: &mut Ctx
         history.push(r);
         pool.push(p);
         ms.push(want);
+        sz.push(dag_size(p, 100_000));
         own[caller].push(hidx);
         if !p.is_const() {
             nonconst = true;
